@@ -14,6 +14,7 @@ import (
 	"time"
 
 	"github.com/jmeaster30/vore/libvore"
+	"github.com/jmeaster30/vore/libvore/ds"
 	"github.com/jmeaster30/vore/libvore/engine"
 )
 
@@ -139,7 +140,16 @@ func opRun(fields []string) string {
 		// located slices of the same bytes (C03, C09 quantify over files too)
 		path, cleanup := c07Scratch([]byte(text))
 		defer cleanup()
-		res = withBudget(func() string { return canonMatches(v.RunFiles([]string{path}, engine.NOTHING, false)) })
+		res = withBudget(func() string {
+			ms := v.RunFiles([]string{path}, engine.NOTHING, false)
+			// the built-in `filename` is the scratch path here and "text" under Run: not a difference of the engine
+			for i := range ms {
+				if ms[i].Replacement.HasValue() {
+					ms[i].Replacement = ds.Some(strings.ReplaceAll(ms[i].Replacement.GetValue(), path, "text"))
+				}
+			}
+			return canonMatches(ms)
+		})
 	} else {
 		res = safeRun(v, text)
 	}
